@@ -291,6 +291,7 @@ def policy_execute(case):
                     held.pop(min(held))
             check("after pop")
     # final drain
+    aborted = False
     for _ in range(len(p) + 2):
         got = p.pop()
         if got is None:
@@ -299,12 +300,15 @@ def policy_execute(case):
             want, _d = ref.pop(now[0])
             if (want.id if want else None) != got.id:
                 bad(f"order/{name}", f"drain pop() -> {got!r}, reference {want!r}")
+                aborted = True          # reference and policy diverged: the remaining drain clauses would only echo this
                 break
         on_pop(got, "drain")
         if name == "codel":
             while len(held) > len(p):
                 held.pop(min(held))
     check("after drain")
+    if aborted:
+        return _fin(r, name, full_seen, acc)
     if len(p) != 0 and name != "deadline":
         bad(f"drain-leaves-items/{name}", f"len={len(p)} after popping until None")
     left = [i for i in held if not (name == "deadline" and held[i].dl < now[0])]
